@@ -596,6 +596,18 @@ let () =
            (match Lswap.check ~kname pp ps (int_of_string (String.sub ld 10 (String.length ld - 10))) with
             | Ok () -> ()
             | Error (kind, m) -> fail step "C08" kind m)
+         (* ZBDD: the same with the tautology chain dropped before and rebuilt after (Mgr/LevelSwapZ.v) *)
+         | [ ld ], Some pp when kname = "zbdd" && List.mem "C08" !props && starts_with ld "LEVELDOWN " ->
+           check "C08";
+           (match Lswap.check_z pp ps (int_of_string (String.sub ld 10 (String.length ld - 10))) with
+            | Ok () -> ()
+            | Error (kind, m) -> fail step "C08" kind m)
+         | [ od ], Some pp when kname = "zbdd" && List.mem "C08" !props && starts_with od "ORDER "
+                                && (pp.inner < 65536 || param_int c "threads" 1 = 1) ->
+           (match Lswap.check_order_z pp ps (List.map int_of_string (List.tl (split_ws od))) with
+            | None -> ()
+            | Some (Ok ()) -> check "C08"
+            | Some (Error (kind, m)) -> check "C08"; fail step "C08" kind m)
          (* a snapshot, set_var_order(_seq), a snapshot: replay on the extracted set_var_order_model; the
             concurrent variant (several workers and >= 65536 nodes) performs the swaps in no fixed order *)
          | [ od ], Some pp when (kname = "bdd" || kname = "mtbdd" || kname = "bcdd") && List.mem "C08" !props && starts_with od "ORDER "
